@@ -111,7 +111,7 @@ def classesLine (root : Entry) : String :=
 
 def step (st : St) : List String → St × String
   | ["rd", t] =>
-    match (lex (unhexD t)).bind (rdParseT Generated.GrammarLadder.ladder Generated.GrammarLadder.compOps) with
+    match (lex Generated.GrammarLadder.statementStartWords (unhexD t)).bind (rdParseT Generated.GrammarLadder.ladder Generated.GrammarLadder.compOps Generated.GrammarLadder.softNameWords) with
     | some tr => (st, "ok " ++ treeSexp tr)
     | none => (st, "error")
   | ["pymin", sx] =>
